@@ -31,6 +31,9 @@ pub struct Case {
     pub queries: Vec<Vec<f64>>,
     pub tape: TapeSpec,
     pub kind: String,
+    /// how KMeansParameters is constructed: 0 = default().with_k().with_max_iter(), 1 = reverse order, 2 = struct literal
+    #[serde(default)]
+    pub ctor: u8,
 }
 
 pub struct C12;
@@ -295,7 +298,14 @@ impl C12 {
                 }
             })));
             let _og = ObsGuard;
-            guarded(|| KMeans::<T>::fit(&x, KMeansParameters::default().with_k(case.k).with_max_iter(case.max_iter)))
+            guarded(|| {
+                let params = match case.ctor % 3 {
+                    0 => KMeansParameters::default().with_k(case.k).with_max_iter(case.max_iter),
+                    1 => KMeansParameters::default().with_max_iter(case.max_iter).with_k(case.k),
+                    _ => KMeansParameters { k: case.k, max_iter: case.max_iter },
+                };
+                KMeans::<T>::fit(&x, params)
+            })
         };
         let log = guard.log();
         drop(guard);
@@ -701,6 +711,7 @@ fn gen_case(batch: &str, _index: u64, seed: u64) -> Case {
             queries: vec![],
             tape: TapeSpec::prng(seed).with_prefix(words),
             kind: format!("tiny#{}/forced-initialisation {:?}", di, targets),
+            ctor: (_index % 3) as u8,
         };
     }
     let mut r = Xo::fork(seed, "workload");
@@ -760,7 +771,7 @@ fn gen_case(batch: &str, _index: u64, seed: u64) -> Case {
                 }
             }
         }
-        return Case { mode: "direct".into(), data, k, max_iter: 1, f32m, centroids: cents, queries: vec![], tape: TapeSpec::prng(tape_seed), kind: format!("{}/{}", dname, cname) };
+        return Case { mode: "direct".into(), data, k, max_iter: 1, f32m, centroids: cents, queries: vec![], tape: TapeSpec::prng(tape_seed), kind: format!("{}/{}", dname, cname), ctor: 0 };
     }
     ensure_distinct(&mut data, &mut k, f32m);
     let max_iter = if pr.chance(0.6) { *pr.pick(&[1usize, 1, 2, 2, 3, 5, 10, 30, 100, 100]) } else { pr.usize_in(1, 100) };
@@ -794,7 +805,8 @@ fn gen_case(batch: &str, _index: u64, seed: u64) -> Case {
         }
         _ => panic!("unknown batch {}", batch),
     }
-    Case { mode: "fit".into(), data, k, max_iter, f32m, centroids: vec![], queries, tape, kind }
+    let ctor = pr.below(3) as u8;
+    Case { mode: "fit".into(), data, k, max_iter, f32m, centroids: vec![], queries, tape, kind, ctor }
 }
 
 impl Property for C12 {
